@@ -4,7 +4,7 @@ package geom
 
 // Contracts for envelopes (C12): closed-interval definitions, join, tightness.
 
-//@ prop C12
+//@ prop C12,C10
 
 //@ pred XYFin(p) = finite(p.X) && finite(p.Y)
 //@ pred EnvOK(e) = e.nonEmpty ==> (XYFin(e.min) && XYFin(e.max) && e.min.X <= e.max.X && e.min.Y <= e.max.Y)
